@@ -75,6 +75,7 @@ structure InstName where
   idx : Nat
   tlname : String
   topLevel : Bool
+  ann : Nat := 0          -- annotation bit mask (bit i = i-th annotation of the kernel's sorted annotation list)
   deriving Repr, Inhabited
 
 structure Desc where
@@ -205,7 +206,8 @@ def pInstName : P InstName := fun ts => do
   match ts with
   | n :: ts => do
     let (t, ts) ← pBool ts
-    pure ({ idx := i, tlname := n, topLevel := t }, ts)
+    let (a, ts) ← pNat ts
+    pure ({ idx := i, tlname := n, topLevel := t, ann := a }, ts)
   | [] => none
 
 def pWord : P String
